@@ -181,7 +181,7 @@ static Case gen_case() {
     Case c;
     int mode = (int)weighted({42, 58});
     unsigned profile = (unsigned)weighted({38, 18, 14, 22, 8});
-    c.cfg = {(uint64_t)mode, pick(0, 3), pick(0, 3), rnd_u64() & 0xFFFFFFFFull, pick(0, 4), profile};
+    c.cfg = {(uint64_t)mode, (profile == 4 && chance(80)) ? 3 : pick(0, 3), pick(0, 3), rnd_u64() & 0xFFFFFFFFull, pick(0, 4), profile};
     // profile 0 balanced, 1 container-heavy, 2 string-heavy, 3 number-heavy, 4 almost only container/tag starts (deep nesting)
     static const unsigned W[5][NKINDS] = {
         //  U   N   F  SF  BY  TX  AR  MP  TG  BO NUL UND IBY ITX IAR IMP BRK
